@@ -829,8 +829,12 @@ def run_ops(ctx, J):
         if out.count(b"\n") != ncmp:
             ctx.inconc("ops %s: expected %d output lines, saw %d" % (nm, ncmp, out.count(b"\n")))
         J.judge("ops", nm, "ops:" + ty, res, runner, files={"program.dora": src}, timeout=60, cmd="%s.<cannon|boots>.default" % nm)
-        for line in out.splitlines()[:ncmp]:
+        lines = out.splitlines()[:ncmp]
+        for line in lines:
             ctx.observe(("ops", line.split(b":")[0]))
+        if lines:
+            ctx.sample({"workload": "ops", "type": ty, "values": OPS_TYPES[ty][:6], "first_line_of_output": lines[0].decode("utf-8", "replace")[:160],
+                        "outcome": res["boots"][0].key()}, limit=12)
 
 
 # ---------------------------------------------------------------------------------------------------------------
